@@ -281,8 +281,8 @@ def fracPart (v : List Nat) (n : Nat) (r : List Nat) : Except ErrRel (List Nat Ã
     else .ok (v ++ 46 :: (radixRun 10 rest).1, n + 1 + (radixRun 10 rest).2)
   | _ => .ok (v, n)
 
-/-- the optional exponent part of `lex_normal_number` -/
-def expPart (v : List Nat) (n : Nat) (r : List Nat) : Except ErrRel (List Nat Ã— Nat) :=
+/-- the body of the exponent branch of `lex_normal_number` -/
+def expPartBody (v : List Nat) (n : Nat) (r : List Nat) : Except ErrRel (List Nat Ã— Nat) :=
   match r with
   | e :: rest =>
     if e = 101 || e = 69 then
@@ -296,6 +296,11 @@ def expPart (v : List Nat) (n : Nat) (r : List Nat) : Except ErrRel (List Nat Ã—
       | [] => .ok (v ++ [101], n + 1)
     else .ok (v, n)
   | [] => .ok (v, n)
+
+/-- the optional exponent part of `lex_normal_number`, entered only `if self.at_exponent()`
+    (repaired code, commit be24063: `1.else` is `1.` then `else`) -/
+def expPart (v : List Nat) (n : Nat) (r : List Nat) : Except ErrRel (List Nat Ã— Nat) :=
+  if atExponent r then expPartBody v n r else .ok (v, n)
 
 def isJ (c : Nat) : Bool := c == 106 || c == 74
 
